@@ -54,6 +54,10 @@ func main() {
 		raceMain(os.Args[2:])
 		return
 	}
+	if os.Args[1] == "probe" && os.Args[2] == "assert" {
+		probeAssert(os.Args[3])
+		return
+	}
 	switch os.Args[1] {
 	case "gen":
 		seed, _ := strconv.ParseUint(os.Args[3], 10, 64)
@@ -97,6 +101,28 @@ func main() {
 	default:
 		os.Exit(2)
 	}
+}
+
+// probeAssert: `c06 probe assert same|changed - -`. lruCache.assertUnchanged (only with
+// UNSAFE_PILOT_ENABLE_RUNTIME_ASSERTIONS, never in production; not modelled) panics in a goroutine of its own when an
+// accepted Add replaces a live entry by a DIFFERENT value, so it can only be observed from outside the process: with an
+// equal replacement the process prints "alive" and exits 0, with a changed one it must die with "assertion failed".
+func probeAssert(mode string) {
+	features.EnableUnsafeAssertions = true
+	features.XDSCacheMaxSize = 4
+	features.EnableCDSCaching, features.EnableRDSCaching = true, true
+	c := model.NewXdsCache()
+	e := entry{typ: model.EDSType, key: uint64(1), cacheable: true}
+	t0 := time.Now()
+	c.Add(e, &model.PushRequest{Start: t0}, &discovery.Resource{Name: "v1"})
+	second := "v1"
+	if mode == "changed" {
+		second = "v2"
+	}
+	c.Add(e, &model.PushRequest{Start: t0.Add(time.Millisecond)}, &discovery.Resource{Name: second})
+	time.Sleep(500 * time.Millisecond)
+	r := c.Get(e)
+	fmt.Println("alive", r.GetName())
 }
 
 // ---------------------------------------------------------------- tokens
@@ -217,13 +243,14 @@ type sut struct {
 	lastClear uint64
 	addTimes  map[uint64]bool
 	hashTok   map[model.ConfigHash]string
+	stats     map[string]int // what the ops of this case did to the real cache (observed through the hook; evidence only)
 }
 
 func newSUT(maxsize int, cdsOn, rdsOn bool, unit uint64) *sut {
 	features.XDSCacheMaxSize = maxsize
 	features.EnableCDSCaching = cdsOn
 	features.EnableRDSCaching = rdsOn
-	return &sut{cache: model.NewXdsCache(), clk: newClock(unit), addTimes: map[uint64]bool{}, hashTok: map[model.ConfigHash]string{}}
+	return &sut{cache: model.NewXdsCache(), clk: newClock(unit), addTimes: map[uint64]bool{}, hashTok: map[model.ConfigHash]string{}, stats: map[string]int{}}
 }
 
 func (s *sut) hashes(toks []string) []model.ConfigHash {
@@ -314,6 +341,60 @@ func (s *sut) tokens() map[string]uint64 {
 	return out
 }
 
+func (s *sut) entryCounts() map[string]int {
+	out := map[string]int{}
+	for _, t := range typeOrder {
+		out[t] = len(model.VerifC06Snapshot(s.cache, t).Store)
+	}
+	return out
+}
+
+// classifyAdd names what an Add did, from the state of the typed cache before and after it (observation only).
+func (s *sut) classifyAdd(typ string, k any, req *model.PushRequest, before, after model.VerifC06State) {
+	known := false
+	for _, t := range typeOrder {
+		known = known || t == typ
+	}
+	switch {
+	case !known:
+		s.stats["add-unknown-type"]++
+		return
+	case before.Disabled:
+		s.stats["add-to-disabled-cache"]++
+		return
+	case req == nil || req.Start.IsZero():
+		s.stats["add-without-start"]++
+		return
+	}
+	tok := uint64(req.Start.UnixNano())
+	find := func(st model.VerifC06State) (uint64, bool) {
+		for _, e := range st.Store {
+			if e.Key == k {
+				return e.Token, true
+			}
+		}
+		return 0, false
+	}
+	bt, had := find(before)
+	at, has := find(after)
+	accepted := has && at == tok && !(had && bt == tok)
+	switch {
+	case accepted && had:
+		s.stats["add-accepted-replacing-entry"]++
+	case accepted:
+		s.stats["add-accepted-new-key"]++
+		if len(after.Store) == len(before.Store) {
+			s.stats["add-evicting-lru-entry"]++
+		}
+	case tok < before.Token:
+		s.stats["add-rejected-by-cache-token"]++
+	case had && tok <= bt:
+		s.stats["add-rejected-by-entry-token"]++
+	default:
+		s.stats["add-not-stored-other"]++ // e.g. Cacheable() == false
+	}
+}
+
 type timingError struct{ msg string }
 
 func (e timingError) Error() string { return e.msg }
@@ -358,6 +439,7 @@ func (s *sut) apply(f []string) (res string, resolved []string, err error) {
 				return
 			}
 			res = "crash"
+			s.stats["crash(type-assertion-on-key)"]++
 		}
 	}()
 	switch {
@@ -378,7 +460,9 @@ func (s *sut) apply(f []string) (res string, resolved []string, err error) {
 			v = &discovery.Resource{Name: f[5]}
 		}
 		e := entry{typ: f[1], key: k, deps: s.hashes(listTok(f[4])), cacheable: wire.B(true) == f[3] || f[3] == "true"}
+		before := model.VerifC06Snapshot(s.cache, f[1])
 		s.cache.Add(e, req, v)
+		s.classifyAdd(f[1], k, req, before, model.VerifC06Snapshot(s.cache, f[1]))
 		return "ok", f, nil
 	case f[0] == "get" && len(f) == 4:
 		k, ok := parseKey(f[2])
@@ -388,8 +472,10 @@ func (s *sut) apply(f []string) (res string, resolved []string, err error) {
 		e := entry{typ: f[1], key: k, cacheable: f[3] == "1" || f[3] == "true"}
 		r := s.cache.Get(e)
 		if r == nil {
+			s.stats["get-miss"]++
 			return "miss", f, nil
 		}
+		s.stats["get-hit"]++
 		return "hit:" + r.Name, f, nil
 	case f[0] == "clear" && (len(f) == 3 || len(f) == 7):
 		if !isNat(f[1]) {
@@ -406,8 +492,25 @@ func (s *sut) apply(f []string) (res string, resolved []string, err error) {
 			cs.Insert(ck)
 		}
 		before := s.queueLens()
+		nBefore := s.entryCounts()
 		if e := s.invalidate(L, func() { s.cache.Clear(cs) }); e != nil {
 			return "", f, e
+		}
+		nAfter := s.entryCounts()
+		removed := 0
+		for t, n := range nBefore {
+			removed += n - nAfter[t]
+		}
+		if removed > 0 {
+			s.stats["clear-removing-entries"]++
+		} else {
+			s.stats["clear-removing-nothing"]++
+		}
+		if model.HasConfigsOfKind(cs, kind.PeerAuthentication) {
+			s.stats["clear-with-peerauthentication"]++
+			if nBefore[model.EDSType] > 0 && nAfter[model.EDSType] == 0 {
+				s.stats["clear-with-peerauthentication-emptying-eds"]++
+			}
 		}
 		s.lastClear = L
 		// resolve the map-iteration nondeterminism of Clear: order in which removed entries were queued
@@ -434,6 +537,7 @@ func (s *sut) apply(f []string) (res string, resolved []string, err error) {
 		if e := s.invalidate(L, func() { s.cache.ClearAll() }); e != nil {
 			return "", f, e
 		}
+		s.stats["clearall"]++
 		s.lastClear = L
 		return "ok", f, nil
 	case f[0] == "snapshot" && len(f) == 1:
@@ -442,6 +546,15 @@ func (s *sut) apply(f []string) (res string, resolved []string, err error) {
 	case f[0] == "keys" && len(f) == 2:
 		return "n=" + strconv.Itoa(len(s.cache.Keys(f[1]))), f, nil
 	case f[0] == "flush" && len(f) == 1:
+		pending := 0
+		for _, n := range s.queueLens() {
+			pending += n
+		}
+		if pending > 0 {
+			s.stats["flush-with-pending-index-cleanups"]++
+		} else {
+			s.stats["flush-with-empty-queue"]++
+		}
 		realFlush(s.cache)
 		return "ok", f, nil
 	case f[0] == "maxsize" && len(f) == 2:
@@ -500,11 +613,21 @@ func parseCase(f []string) (maxsize int, cdsOn, rdsOn bool, ok bool) {
 }
 
 // runCase executes one case (header + ops) and returns the output lines and resolved op lines.
-func runCase(lines [][]string, unit uint64) (outs []string, res [][]string, err error) {
+func runCase(lines [][]string, unit uint64) (outs []string, res [][]string, stats map[string]int, err error) {
 	var s *sut
+	stats = map[string]int{}
+	merge := func() {
+		if s != nil && stats != nil {
+			for k, v := range s.stats {
+				stats[k] += v
+			}
+		}
+	}
+	defer merge()
 	for _, f := range lines {
 		if f[0] == "case" {
 			m, c, r, ok := parseCase(f)
+			merge()
 			if !ok {
 				s = newSUT(0, true, true, unit) // malformed header: both sides fall back to the initial state
 				outs = append(outs, "bad-op")
@@ -521,7 +644,7 @@ func runCase(lines [][]string, unit uint64) (outs []string, res [][]string, err 
 		}
 		r, rf, e := s.apply(f)
 		if e != nil {
-			return nil, nil, e
+			return nil, nil, nil, e
 		}
 		res = append(res, rf)
 		if r == "bad-op" {
@@ -530,7 +653,7 @@ func runCase(lines [][]string, unit uint64) (outs []string, res [][]string, err 
 			outs = append(outs, r+" "+s.show())
 		}
 	}
-	return outs, res, nil
+	return outs, res, stats, nil
 }
 
 func splitCases(all [][]string) [][][]string {
@@ -551,10 +674,19 @@ func execCache(opsPath, outPath string) {
 	rout := wire.Create(opsPath + ".resolved")
 	defer rout.Close()
 	retries, unresolved := 0, 0
+	total := map[string]int{}
 	defer func() {
 		st := wire.Create(outPath + ".stats")
 		st.Line("timing_unresolved", strconv.Itoa(unresolved))
 		st.Line("timing_retries", strconv.Itoa(retries))
+		var names []string
+		for k := range total {
+			names = append(names, k)
+		}
+		sort.Strings(names)
+		for _, k := range names {
+			st.Line(k, strconv.Itoa(total[k]))
+		}
 		st.Close()
 	}()
 	for _, c := range splitCases(all) {
@@ -562,8 +694,9 @@ func execCache(opsPath, outPath string) {
 		var outs []string
 		var res [][]string
 		var err error
+		var stats map[string]int
 		for try := 0; try < 12; try++ {
-			outs, res, err = runCase(c, unit)
+			outs, res, stats, err = runCase(c, unit)
 			if err == nil {
 				break
 			}
@@ -588,6 +721,9 @@ func execCache(opsPath, outPath string) {
 		for i := range outs {
 			out.Line(outs[i])
 			rout.Line(res[i]...)
+		}
+		for k, v := range stats {
+			total[k] += v
 		}
 		out.Flush()
 	}
